@@ -7,10 +7,14 @@ package dnsforward
 // client.Storage, a scripted recording upstream and a capturing query log.
 
 import (
+	"bytes"
 	"context"
+	"encoding/json"
 	"fmt"
 	"math/big"
 	"net"
+	"net/http"
+	"net/http/httptest"
 	"net/netip"
 	"sort"
 	"strings"
@@ -77,6 +81,11 @@ type plCfg struct {
 	AAAADisabled bool
 	Svcs         []string
 	SvcPaused    bool
+	// SvcZoned: the pause schedules (global and per client) are given in a
+	// time zone that is on another weekday than the local zone right now
+	// (plWeeklyZoned); SvcPaused still says what the schedule yields now.
+	SvcZoned bool
+	svcZone  string
 	SBHost       string
 	ParHost      string
 	Custom       []*vfRule // block list id 0 (custom rules)
@@ -105,6 +114,54 @@ type plCfg struct {
 	DNS64      bool
 	// SBHost / ParHost may be host names (resolved through the upstream).
 	hosts *aghnet.HostsContainer
+
+	// round 3: Lists != nil = lists mode.  The block and allow lists are
+	// served by an HTTP source, added through POST /control/filtering/add_url
+	// and switched on and off through POST /control/filtering/set_url while
+	// the server runs; Custom are the user rules.  Block / Allow always hold
+	// the rules of the lists that are enabled NOW (syncLists), so the
+	// monitors and the per-query case terms state the property for the rule
+	// set in force.
+	Lists []*plList
+}
+
+// plList is a rule list of the lists mode.
+type plList struct {
+	Name  string
+	White bool
+	Rules []*vfRule
+	On    bool
+	url   string
+}
+
+// syncLists recomputes Block / Allow from the enabled lists, in
+// configuration order.
+func (c *plCfg) syncLists() {
+	c.Block, c.Allow = nil, nil
+	for _, l := range c.Lists {
+		if !l.On {
+			continue
+		}
+		if l.White {
+			c.Allow = append(c.Allow, l.Rules...)
+		} else {
+			c.Block = append(c.Block, l.Rules...)
+		}
+	}
+}
+
+// listsStateCoq renders the lists with their flags (Model/PipelineLists.lstate).
+func (c *plCfg) listsStateCoq() string {
+	var bl, al []string
+	for i, l := range c.Lists {
+		f := vfApp("mkFList", vfN(uint64(i)), vfBool(l.On), vfRulesCoq(l.Rules))
+		if l.White {
+			al = append(al, f)
+		} else {
+			bl = append(bl, f)
+		}
+	}
+	return vfApp("mkLState", vfRulesCoq(c.Custom), vfList("flist", bl), vfList("flist", al))
 }
 
 const plLocalSuffix = "lan"
@@ -355,7 +412,7 @@ func (c *plCfg) Desc() map[string]any {
 		"protection": c.ProtEnabled, "pause_deadline": []string{"none", "future", "past"}[c.Deadline],
 		"filtering": c.Filtering, "safebrowsing": c.SB, "parental": c.Par, "mode": string(c.Mode),
 		"ip4": c.IP4.String(), "ip6": c.IP6.String(), "ttl": c.TTL, "aaaa_disabled": c.AAAADisabled,
-		"blocked_services": c.Svcs, "services_paused": c.SvcPaused,
+		"blocked_services": c.Svcs, "services_paused": c.SvcPaused, "services_schedule_zone": c.svcZone,
 		"custom_rules": vfRuleTexts(c.Custom), "block_list": vfRuleTexts(c.Block), "allow_list": vfRuleTexts(c.Allow),
 		"sb_hosts": c.SBHosts, "parental_hosts": c.ParHosts, "clients": c.Clients, "proxy_cache": c.CacheOn,
 		"sb_block_host": c.SBHost, "parental_block_host": c.ParHost,
@@ -406,6 +463,164 @@ type plServer struct {
 	ql  *plQueryLog
 	cfg *plCfg
 	ss  *safesearch.Default
+
+	// lists mode: the captured HTTP handlers of the filtering module, and
+	// the history so far (Run/PipeCase.CLists).
+	handlers  map[string]http.HandlerFunc
+	histInit  string
+	histCfg   string
+	histSteps []string
+	histDefs  []vfDef
+	histAsks  int
+	histDesc  []string
+	// last is the observation of the last run.
+	last plObs
+	// lists mode bookkeeping for the branch classes
+	changes       int
+	askedAllowOn  bool
+	wasOff        map[int]bool
+}
+
+// listsClasses: where in a history of list changes the query about to be run sits.
+func (ps *plServer) listsClasses() (cl []string) {
+	c := ps.cfg
+	if c.Lists == nil {
+		return nil
+	}
+	cl = append(cl, "lists-scenario")
+	if ps.changes > 0 {
+		cl = append(cl, "lists-after-change")
+	}
+	allowOn, reenabled := false, false
+	for i, l := range c.Lists {
+		if l.White && l.On {
+			allowOn = true
+		}
+		if !l.White && l.On && ps.wasOff[i] {
+			reenabled = true
+		}
+	}
+	if !allowOn && ps.askedAllowOn {
+		cl = append(cl, "lists-all-allow-off-after-use")
+	}
+	if reenabled {
+		cl = append(cl, "lists-block-list-reenabled")
+	}
+	if allowOn {
+		ps.askedAllowOn = true
+	}
+	return cl
+}
+
+// post calls a captured handler of the filtering module as the web API would.
+func (ps *plServer) post(t *testing.T, path string, body any) (code int, text string) {
+	t.Helper()
+	h := ps.handlers[http.MethodPost+" "+path]
+	if h == nil {
+		t.Fatalf("no handler registered for POST %s", path)
+	}
+	data, err := json.Marshal(body)
+	if err != nil {
+		t.Fatal(err)
+	}
+	r := httptest.NewRequest(http.MethodPost, "http://agh.example"+path, bytes.NewReader(data))
+	r.Header.Set("Content-Type", "application/json")
+	w := httptest.NewRecorder()
+	h(w, r)
+	return w.Code, w.Body.String()
+}
+
+// runPending plays updatesLoop: a queued engine initialisation is carried out.
+func (ps *plServer) runPending(t *testing.T) (ran bool) {
+	t.Helper()
+	ran, err := ps.s.dnsFilter.VerifRunPendingInit()
+	if err != nil {
+		t.Fatalf("pending engine initialisation: %v", err)
+	}
+	return ran
+}
+
+// setList switches list i through POST /control/filtering/set_url (the
+// source keeps serving the same rules) and records the change in the history.
+func (ps *plServer) setList(t *testing.T, i int, on bool) (rebuilt bool) {
+	t.Helper()
+	l := ps.cfg.Lists[i]
+	code, text := ps.post(t, "/control/filtering/set_url", map[string]any{
+		"url": l.url, "whitelist": l.White,
+		"data": map[string]any{"name": l.Name, "url": l.url, "enabled": on},
+	})
+	if code != http.StatusOK {
+		t.Fatalf("set_url %s enabled=%v: %d %s", l.Name, on, code, text)
+	}
+	rebuilt = ps.runPending(t)
+	ps.changes++
+	if !on {
+		if ps.wasOff == nil {
+			ps.wasOff = map[int]bool{}
+		}
+		ps.wasOff[i] = true
+	}
+	l.On = on
+	ps.cfg.syncLists()
+	ps.histSteps = append(ps.histSteps, vfApp("SChange", vfApp("LSet", vfBool(l.White), vfN(uint64(i)), vfBool(on))))
+	ps.histDesc = append(ps.histDesc, fmt.Sprintf("set_url %s enabled=%v", l.Name, on))
+	return rebuilt
+}
+
+// recordAsk appends the query just run (and what was observed) to the history.
+func (ps *plServer) recordAsk(q *plQuery, o *plObs) {
+	var defs []vfDef
+	full := plCaseCoqShared("CPipe", ps, q, o, &defs)
+	// (CPipe cfg allow block sb par ss q ups up obs): the history step keeps ss q ups up obs
+	parts := plSplitTop(full)
+	if len(parts) != 11 {
+		panic(fmt.Sprintf("case term has %d parts", len(parts)))
+	}
+	step := vfApp("SAsk", parts[6:]...)
+	for _, d := range defs {
+		if strings.Contains(step, d.Name) {
+			vfShare(&ps.histDefs, strings.TrimSuffix(d.Name, d.Name[strings.LastIndex(d.Name, "_"):]), d.Body)
+		}
+	}
+	ps.histSteps = append(ps.histSteps, step)
+	ps.histAsks++
+	ps.histDesc = append(ps.histDesc, fmt.Sprintf("ask %s %s from %s", q.Name, dns.TypeToString[q.QType], q.Addr))
+}
+
+// plSplitTop splits "(head a1 a2 …)" into head and its top-level arguments.
+func plSplitTop(term string) (parts []string) {
+	term = strings.TrimSuffix(strings.TrimPrefix(term, "("), ")")
+	depth, start := 0, 0
+	for i := 0; i < len(term); i++ {
+		switch term[i] {
+		case '(', '[':
+			depth++
+		case ')', ']':
+			depth--
+		case ' ':
+			if depth == 0 {
+				if i > start {
+					parts = append(parts, term[start:i])
+				}
+				start = i + 1
+			}
+		}
+	}
+	if start < len(term) {
+		parts = append(parts, term[start:])
+	}
+	return parts
+}
+
+// historyCase is the whole history as one case: the lists and flags at the
+// start, then every change and every query with its observation; Coq replays
+// it with Model/PipelineLists (the engines of the state reached so far).
+func (ps *plServer) historyCase() vfCase {
+	c := ps.cfg
+	defs := append([]vfDef{}, ps.histDefs...)
+	coq := vfApp("CLists", ps.histCfg, ps.histInit, vfBytesList(c.SBHosts), vfBytesList(c.ParHosts), vfList("lstep", ps.histSteps))
+	return vfCase{Coq: coq, Defs: defs, Nontrivial: ps.histAsks > 0, Classes: []string{"lists-history"}, MonitorOK: true,
+		Desc: map[string]any{"config": c.Desc(), "steps": ps.histDesc}}
 }
 
 // plSafeSearchConf: the services whose rules the (always installed)
@@ -417,6 +632,57 @@ func plWeekly(paused bool) *schedule.Weekly {
 		return schedule.FullWeekly()
 	}
 	return schedule.EmptyWeekly()
+}
+
+// plWeeklyZoned builds a pause schedule in a time zone that is on another
+// weekday than the process' local zone right now (the blocked-services code
+// asks Contains(time.Now())): paused = only the zone's current weekday has a
+// (full-day) pause range; not paused = every weekday except that one has.
+// The schedule's verdict is decided by the weekday in the schedule's zone; a
+// zone closer than half an hour to its midnight is not used, so the expected
+// verdict cannot change while the harness runs.  Falls back to plWeekly when
+// no zone qualifies or the zone database is missing.
+func plWeeklyZoned(paused bool) (w *schedule.Weekly, zone string) {
+	now := time.Now()
+	for _, off := range []int{14, -12, 13, -11, 12, -10, 11, -9, 10, -8} {
+		// Etc/GMT-14 is UTC+14
+		name := fmt.Sprintf("Etc/GMT%+d", -off)
+		loc, err := time.LoadLocation(name)
+		if err != nil {
+			continue
+		}
+		z := now.In(loc)
+		if z.Weekday() == now.Weekday() {
+			continue
+		}
+		if m := z.Hour()*60 + z.Minute(); m < 30 || m >= 24*60-30 {
+			continue
+		}
+		days := []string{"sun", "mon", "tue", "wed", "thu", "fri", "sat"}
+		conf := map[string]any{"time_zone": name}
+		for i, d := range days {
+			if (time.Weekday(i) == z.Weekday()) == paused {
+				conf[d] = map[string]any{"start": 0, "end": 24 * 60 * 60 * 1000}
+			}
+		}
+		data, _ := json.Marshal(conf)
+		w = &schedule.Weekly{}
+		if err = json.Unmarshal(data, w); err != nil {
+			continue
+		}
+		return w, name
+	}
+	return plWeekly(paused), ""
+}
+
+// svcSchedule: the pause schedule of the configuration / client.
+func (c *plCfg) svcSchedule(paused bool) *schedule.Weekly {
+	if c.SvcZoned {
+		w, zone := plWeeklyZoned(paused)
+		c.svcZone = zone
+		return w
+	}
+	return plWeekly(paused)
 }
 
 func plFilters(id int, rs []*vfRule) filtering.Filter {
@@ -442,7 +708,7 @@ func plNewServer(t *testing.T, c *plCfg) *plServer {
 			SafeBrowsingEnabled:   pc.SB,
 			ParentalEnabled:       pc.Par,
 			UseOwnBlockedServices: pc.UseOwnSvc,
-			BlockedServices:       &filtering.BlockedServices{Schedule: plWeekly(pc.SvcPaused), IDs: pc.Svcs},
+			BlockedServices:       &filtering.BlockedServices{Schedule: c.svcSchedule(pc.SvcPaused), IDs: pc.Svcs},
 			SafeSearchConf:        filtering.SafeSearchConfig{Enabled: pc.SafeSearch},
 			Tags:                  append([]string{}, pc.Tags...),
 		}
@@ -484,7 +750,7 @@ func plNewServer(t *testing.T, c *plCfg) *plServer {
 		SafeBrowsingBlockHost:  c.SBHost,
 		ParentalBlockHost:      c.ParHost,
 		ApplyClientFiltering:   storage.ApplyClientFiltering,
-		BlockedServices:        &filtering.BlockedServices{Schedule: plWeekly(c.SvcPaused), IDs: c.Svcs},
+		BlockedServices:        &filtering.BlockedServices{Schedule: c.svcSchedule(c.SvcPaused), IDs: c.Svcs},
 		DataDir:                t.TempDir(),
 		ConfigModified:         func() {},
 		SafeSearchConf:         filtering.SafeSearchConfig{Enabled: c.SafeSearch},
@@ -532,17 +798,26 @@ func plNewServer(t *testing.T, c *plCfg) *plServer {
 		d := time.Now().Add(-time.Hour)
 		fconf.ProtectionDisabledUntil = &d
 	}
+	handlers := map[string]http.HandlerFunc{}
+	if c.Lists != nil {
+		fconf.FilteringEnabled = c.Filtering
+		fconf.UserRules = vfRuleTexts(c.Custom)
+		fconf.HTTPClient = &http.Client{Timeout: 10 * time.Second}
+		fconf.HTTPRegister = func(method, url string, h http.HandlerFunc) { handlers[method+" "+url] = h }
+	}
 	f, err := filtering.New(fconf, nil)
 	if err != nil {
 		t.Fatalf("filtering.New: %v", err)
 	}
 	f.SetEnabled(c.Filtering)
-	err = f.VerifSetFilters(
-		[]filtering.Filter{plFilters(0, c.Custom), plFilters(10, c.Block)},
-		[]filtering.Filter{plFilters(20, c.Allow)},
-	)
-	if err != nil {
-		t.Fatalf("set filters: %v", err)
+	if c.Lists == nil {
+		err = f.VerifSetFilters(
+			[]filtering.Filter{plFilters(0, c.Custom), plFilters(10, c.Block)},
+			[]filtering.Filter{plFilters(20, c.Allow)},
+		)
+		if err != nil {
+			t.Fatalf("set filters: %v", err)
+		}
 	}
 
 	ql := &plQueryLog{}
@@ -614,7 +889,36 @@ func plNewServer(t *testing.T, c *plCfg) *plServer {
 		s.dns64Pref = plDNS64Prefix
 	}
 
-	return &plServer{s: s, ups: ups, ql: ql, cfg: c, ss: ss}
+	ps := &plServer{s: s, ups: ups, ql: ql, cfg: c, ss: ss, handlers: handlers}
+	if c.Lists != nil {
+		// the lists' source; every list is added through the web API (which
+		// downloads it and queues an engine initialisation), the way an
+		// administrator does
+		src := httptest.NewServer(http.HandlerFunc(func(w http.ResponseWriter, r *http.Request) {
+			for _, l := range c.Lists {
+				if strings.HasSuffix(l.url, r.URL.Path) {
+					_, _ = w.Write([]byte(vfRulesText(l.Rules)))
+					return
+				}
+			}
+			http.NotFound(w, r)
+		}))
+		t.Cleanup(src.Close)
+		f.VerifStartNoLoop()
+		for i, l := range c.Lists {
+			l.url = fmt.Sprintf("%s/l/%d-%s.txt", src.URL, i, l.Name)
+			l.On = true
+			code, text := ps.post(t, "/control/filtering/add_url", map[string]any{"name": l.Name, "url": l.url, "whitelist": l.White})
+			if code != http.StatusOK {
+				t.Fatalf("add_url %s: %d %s", l.Name, code, text)
+			}
+			ps.runPending(t)
+		}
+		c.syncLists()
+		ps.histInit = c.listsStateCoq()
+		ps.histCfg = c.Coq()
+	}
+	return ps
 }
 
 // ---- records and responses
@@ -820,6 +1124,7 @@ func (ps *plServer) run(q *plQuery) (o plObs) {
 		o.Result = last.Result
 		o.OrigKept = last.OrigAnswer != nil
 	}
+	ps.last = o
 	return o
 }
 
@@ -1294,6 +1599,7 @@ func plGenCfg(r *vfRand, targets []string) *plCfg {
 			c.Svcs = append(c.Svcs, vfPick(r, plServices).ID)
 		}
 		c.SvcPaused = r.Chance(1, 4)
+		c.SvcZoned = r.Bool()
 	}
 	if r.Chance(1, 6) {
 		c.SB = true
@@ -1608,3 +1914,71 @@ func plIsDHCPHostQuestion(c *plCfg, q *plQuery) bool {
 	return label != "" && !strings.Contains(label, ".")
 }
 
+
+// ---- round 3: rule lists switched on and off while the server runs
+
+// plGenLists turns a drawn configuration into a lists-mode one: its block
+// rules go into one or two block lists, its allow rules into one or two allow
+// lists (every list holds at least one rule: add_url refuses an empty one);
+// half of the time one name gets both a block rule and an allow rule.
+func plGenLists(r *vfRand, c *plCfg, targets []string) {
+	blk, alw := c.Block, c.Allow
+	if r.Bool() {
+		t := vfPick(r, targets)
+		blk = append(blk, &vfRule{ID: 150, Pattern: "||" + t + "^"})
+		alw = append(alw, &vfRule{ID: 250, Pattern: "||" + t + "^", White: r.Bool()})
+	}
+	if len(blk) == 0 {
+		blk = []*vfRule{{ID: 151, Pattern: "||" + vfPick(r, targets) + "^"}}
+	}
+	if len(alw) == 0 {
+		alw = []*vfRule{{ID: 251, Pattern: "||" + vfPick(r, targets) + "^", White: r.Bool()}}
+	}
+	split := func(rs []*vfRule, white bool, name string) {
+		k := len(rs)
+		if len(rs) > 1 && r.Bool() {
+			k = 1 + r.Intn(len(rs)-1)
+		}
+		c.Lists = append(c.Lists, &plList{Name: name + "1", White: white, Rules: rs[:k]})
+		if k < len(rs) {
+			c.Lists = append(c.Lists, &plList{Name: name + "2", White: white, Rules: rs[k:]})
+		}
+	}
+	split(blk, false, "block")
+	split(alw, true, "allow")
+	c.Block, c.Allow = nil, nil
+}
+
+// plRunLists runs a history on a lists-mode server: changes through the
+// set_url API (aimed, half of the time, at switching every allow list off or
+// a disabled list on again) and queries drawn by genQ, each emitted as a
+// case of its own for the rule set in force; the whole history is emitted
+// as one more case.
+func plRunLists(t *testing.T, out *vfOut, r *vfRand, ps *plServer, steps int, genQ func() *plQuery,
+	emit func(ps *plServer, q *plQuery, extra ...string)) {
+	c := ps.cfg
+	for k := 0; k < steps; k++ {
+		if k > 0 && r.Chance(2, 5) {
+			i := r.Intn(len(c.Lists))
+			if r.Bool() {
+				// aim: an enabled allow list, else a disabled list
+				for j, l := range c.Lists {
+					if (l.White && l.On) || !l.On {
+						i = j
+						if r.Bool() {
+							break
+						}
+					}
+				}
+			}
+			if ps.setList(t, i, !c.Lists[i].On) {
+				out.Class("lists-engine-rebuilt")
+			}
+			continue
+		}
+		q := genQ()
+		emit(ps, q, ps.listsClasses()...)
+		ps.recordAsk(q, &ps.last)
+	}
+	out.Emit(ps.historyCase())
+}
